@@ -178,12 +178,45 @@ def hostile():
     return out
 
 
+def hostile_extra():
+    """
+    Further hostile items, used at depth <= 2 only (so that the product families stay small):
+    frames with sync-like junk INSERTED behind the preamble / inside the header (a reader that
+    skips the junk but keeps the bytes read so far delivers a frame that never was in the stream),
+    and frame-like items that only check out when some trailing bytes are stripped first.
+    """
+    f = frames()
+    out = []
+    f2, f19 = f["F2"]["data"], f["F19"]["data"]
+    for junk in (b"\x24", b"\xb5", b"\xd3", b"\x00", b"\x24\x24", b"\xb5\x62", b"\xb5\x24\xb5"):
+        for pos in (1, 2, 3):
+            out.append({"name": f"F2ins{pos}:{junk.hex()}", "data": f2[:pos] + junk + f2[pos:]})
+        out.append({"name": f"F19ins1:{junk.hex()}", "data": f19[:1] + junk + f19[1:]})
+    content = unknown_payload(4, 4041)
+    for nm, suffix in (("crlf", b"\r\n"), ("lf", b"\n"), ("cr", b"\r"), ("nul", b"\x00"), ("sp", b" "),
+                       ("nulnul", b"\x00\x00")):
+        body = b"\xd3" + (len(content) + len(suffix)).to_bytes(2, "big") + content
+        item = body + pinned.crc24q_table(body).to_bytes(3, "big") + suffix
+        if not pinned.frame_ok(item):
+            out.append({"name": f"Gstrip:{nm}", "data": item})
+    # the same with the junk in FRONT of the content (a parser that strips leading white space)
+    for nm, prefix in (("lsp", b" "), ("lnul", b"\x00")):
+        body = b"\xd3" + (len(content) + len(prefix)).to_bytes(2, "big")
+        inner = body + content
+        item = body + prefix + content + pinned.crc24q_table(inner).to_bytes(3, "big")
+        if not pinned.frame_ok(item):
+            out.append({"name": f"Glstrip:{nm}", "data": item})
+    for it in out:
+        it["kind"] = "hostile"
+    return out
+
+
 def full_alphabet(tier="quick"):
     return wellformed(tier) + hostile()
 
 
 def by_name(tier="thorough"):
-    d = {it["name"]: it for it in full_alphabet(tier)}
+    d = {it["name"]: it for it in full_alphabet(tier) + hostile_extra()}
     for it in frames().values():
         d[it["name"]] = it
     return d
